@@ -21,7 +21,7 @@ pub fn property() -> Property {
     Property {
         id: "C09",
         level: "fault_enumeration",
-        rule: "scenario = role (client/server) x streams (0-3) x pending opens x blocked readers x 0-3 concurrent writer tasks (queued on a small-capacity transport) x life point (fresh session with only the settings buffered .. mid-transfer); cause = peer EOF, read error (ConnectionReset / UnexpectedEof / Other), write error at byte k, flush error, Alert frame (with/without text), liveness timeout, owner close(), each optionally with a transport whose shutdown never completes; position = byte offset in the affected direction, enumerated from the recorded fault-free run of the same scenario (fixed cases walk every offset of a canonical scenario for every cause; random cases sample scenario x cause x position x H1 schedule). Oracles under a one-hour virtual watchdog: closed flag, shutdown seen on the transport, blocked readers return, pending opens resolve with an error, later opens/writes fail, in-flight calls return, the session's tasks end. Non-trivial = >= 1 blocked reader or pending open or queued writer at the fault. Distinct = distinct serialized case.",
+        rule: "scenario = role (client/server) x streams (0-3) x pending opens x blocked readers x 0-3 concurrent writer tasks (queued on a small-capacity transport) x life point (fresh session with only the settings buffered .. mid-transfer); cause = peer EOF, read error (ConnectionReset / UnexpectedEof / Other), write error at byte k, flush error, Alert frame (with/without text), liveness timeout, owner close(), each optionally with a transport whose shutdown never completes; position = byte offset in the affected direction, enumerated from the recorded fault-free run of the same scenario (fixed cases walk every offset of a canonical scenario for every cause; random cases sample scenario x cause x position x H1 schedule). Oracles under a one-hour virtual watchdog: closed flag, shutdown seen on the transport, blocked readers return, pending opens resolve with an error, later opens/writes fail, in-flight calls return, the session's tasks end. Non-trivial = >= 1 blocked reader or pending open or queued writer at the fault. Distinct = distinct serialized case. Read faults also come as TimedOut / Interrupted / WouldBlock errors, write and flush faults as broken pipe, connection reset, timed out, interrupted, would block or other.",
         assumptions: vec![
             "virtual watchdog: not completed after one virtual hour = blocks forever (documented bounds: 1 s shutdown, 30 s open)",
             "scripted peer speaks through the reference codec; harness pipe models EOF/reset/broken pipe/hanging shutdown",
